@@ -5,6 +5,7 @@ from genlib import G, SUITES, suite
 import gen_r64      # noqa: F401  (registers suites)
 import gen_bsi      # noqa: F401
 import gen_kern     # noqa: F401
+import gen_contops  # noqa: F401
 import gen_ser      # noqa: F401
 import gen_alias    # noqa: F401
 import gen_iter     # noqa: F401
